@@ -17,6 +17,7 @@ import (
 	"crypto/x509/pkix"
 	"fmt"
 	"math/big"
+	"net"
 	"net/netip"
 	"strings"
 	"sync"
@@ -62,11 +63,28 @@ func TestVFC16History(t *testing.T) {
 		t.Fatalf("VERIF-INCONCLUSIVE certificate: %v", err)
 	}
 
+	// a real upstream, for the requests that are processed right after a
+	// reconfiguration
+	pc, err := net.ListenPacket("udp", net.JoinHostPort(vfListenIP().String(), "0"))
+	if err != nil {
+		t.Fatalf("VERIF-INCONCLUSIVE upstream socket: %v", err)
+	}
+	upsSrv := &dns.Server{PacketConn: pc, Handler: dns.HandlerFunc(func(rw dns.ResponseWriter, q *dns.Msg) {
+		r := (&dns.Msg{}).SetReply(q)
+		if len(q.Question) == 1 && q.Question[0].Qtype == dns.TypeA {
+			r.Answer = []dns.RR{&dns.A{Hdr: dns.RR_Header{Name: q.Question[0].Name, Rrtype: dns.TypeA, Class: dns.ClassINET, Ttl: 60}, A: net.IPv4(192, 0, 2, 99)}}
+		}
+		_ = rw.WriteMsg(r)
+	})}
+	go func() { _ = upsSrv.ActivateAndServe() }()
+	defer func() { _ = upsSrv.Shutdown() }()
+
 	rapid.Check(t, func(t *rapid.T) {
 		var mu sync.Mutex
 		var seen []string
 		w, werr := vfNewWorld(&vfWorldConf{
 			ProtectionEnabled: true, FilteringEnabled: true, ServerName: vfC16HistServerName, TLSCert: cert,
+			UpstreamAddr: pc.LocalAddr().String(),
 			StrictSNI:     rapid.Bool().Draw(t, "strict_sni"),
 			OnApplyClient: func(id string, _ netip.Addr) { mu.Lock(); seen = append(seen, id); mu.Unlock() },
 		})
@@ -94,6 +112,21 @@ func TestVFC16History(t *testing.T) {
 		}()
 		idsBefore := map[string]bool{}
 		reconfigured := false
+		strict := w.srv.conf.TLSConf.StrictSNICheck
+		curName := vfC16HistServerName
+		// carried says what a TLS server name carries under the server name
+		// configured now: the ClientID, or that the request must fail (a name
+		// outside the domain with strict checking).
+		carried := func(sni string) (id string, mustFail bool) {
+			switch {
+			case sni == curName:
+				return "", false
+			case strings.HasSuffix(sni, "."+curName) && !strings.Contains(strings.TrimSuffix(sni, "."+curName), "."):
+				return strings.ToLower(strings.TrimSuffix(sni, "."+curName)), false
+			default:
+				return "", strict
+			}
+		}
 		n := rapid.IntRange(3, 14).Draw(t, "n_ops")
 		scripted := rapid.IntRange(0, 2).Draw(t, "scripted_beginning") == 0
 		if scripted {
@@ -103,7 +136,7 @@ func TestVFC16History(t *testing.T) {
 			label := fmt.Sprintf("op%d", i)
 			kinds := []string{"dot", "dot", "dot", "udp", "udp", "tcp", "tcp", "reconfigure"}
 			if len(kept) > 0 {
-				kinds = append(kinds, "dot_reuse", "dot_reuse")
+				kinds = append(kinds, "dot_reuse", "dot_reuse", "rename_during_request")
 			}
 			kind := rapid.SampledFrom(kinds).Draw(t, label+"_kind")
 			if scripted && i < len(vfC16Script) {
@@ -127,7 +160,77 @@ func TestVFC16History(t *testing.T) {
 
 			req := &dns.Msg{}
 			req.SetQuestion(fmt.Sprintf("q%d.history.example.", i), dns.TypeA)
+			if kind == "rename_during_request" {
+				// the administrator saves the encryption settings with another
+				// server name; a client with an open connection sends its next
+				// request while the server is being reconfigured.  The request
+				// is decided by the old settings or by the new ones.
+				k := rapid.IntRange(0, len(kept)-1).Draw(t, label+"_conn")
+				delay := rapid.SampledFrom([]int{5, 30, 60, 90}).Draw(t, label+"_delay_ms")
+				newName := "dns.vf.test"
+				if curName == newName {
+					newName = "other.vf.test"
+				}
+				oldID, oldFail := carried(kept[k].sni)
+				trace = append(trace, fmt.Sprintf("server name %s -> %s; %d ms into it a request on the open connection(%s)", curName, newName, delay, kept[k].sni))
+				mu.Lock()
+				seen = nil
+				mu.Unlock()
+				conf := w.srv.conf
+				tlsConf := *conf.TLSConf
+				tlsConf.ServerName = newName
+				conf.TLSConf = &tlsConf
+				done := make(chan error, 1)
+				go func() { done <- w.srv.Reconfigure(&conf) }()
+				time.Sleep(time.Duration(delay) * time.Millisecond)
+				_ = kept[k].conn.SetDeadline(time.Now().Add(3 * time.Second))
+				var resp *dns.Msg
+				xerr := kept[k].conn.WriteMsg(req)
+				if xerr == nil {
+					resp, xerr = kept[k].conn.ReadMsg()
+				}
+				if rerr := <-done; rerr != nil {
+					t.Fatalf("VERIF-INCONCLUSIVE reconfigure: %v\nhistory: %v", rerr, trace)
+				}
+				w.srv.conf.UpstreamConfig.Upstreams = []upstream.Upstream{w.ups}
+				reconfigured = true
+				curName = newName
+				newID, newFail := carried(kept[k].sni)
+				if xerr != nil {
+					_ = kept[k].conn.Close()
+					kept = append(kept[:k], kept[k+1:]...)
+					vfC16.Class("history:request_during_rename_not_answered")
+
+					continue
+				}
+				vfC16.Eval()
+				vfC16.Class("history:rename_during_request")
+				vfC16.Nontrivial(fmt.Sprintf("history|rename|%s|%s|%d|%d", kept[k].sni, newName, delay, len(trace)))
+				if resp.Rcode != dns.RcodeSuccess {
+					vfC16.Class("history:request_during_rename_failed")
+
+					continue
+				}
+				mu.Lock()
+				got := append([]string(nil), seen...)
+				mu.Unlock()
+				if len(got) != 1 {
+					t.Fatalf("VERIF-INCONCLUSIVE %s: the client-settings callback ran %d times for one request\nhistory: %v", trace[len(trace)-1], len(got), trace)
+				}
+				okOld := !oldFail && got[0] == oldID
+				okNew := !newFail && got[0] == newID
+				if vfC16.WantSample("history/rename_during_request") {
+					vfC16.Sample("history/rename_during_request", map[string]any{"history": append([]string(nil), trace...), "attributed_to": got[0], "by_old_settings": oldID, "by_new_settings": newID, "new_settings_reject": newFail})
+				}
+				if !okOld && !okNew {
+					t.Fatalf("%s was served and attributed to ClientID %q; the old settings say %q (reject: %t), the new ones %q (reject: %t)\nhistory: %v",
+						trace[len(trace)-1], got[0], oldID, oldFail, newID, newFail, trace)
+				}
+
+				continue
+			}
 			want := ""
+			mustFail := false
 			var resp *dns.Msg
 			var xerr error
 			mu.Lock()
@@ -136,9 +239,9 @@ func TestVFC16History(t *testing.T) {
 			switch kind {
 			case "dot":
 				id := rapid.SampledFrom([]string{"alice", "bob", "Carol", ""}).Draw(t, label+"_id")
-				sni := vfC16HistServerName
+				sni := curName
 				if id != "" {
-					sni = id + "." + vfC16HistServerName
+					sni = id + "." + curName
 				}
 				want = strings.ToLower(id)
 				trace = append(trace, "dot("+sni+")")
@@ -162,7 +265,7 @@ func TestVFC16History(t *testing.T) {
 				// the next query on a connection opened earlier, perhaps before
 				// a reconfiguration
 				k := rapid.IntRange(0, len(kept)-1).Draw(t, label+"_conn")
-				want = kept[k].id
+				want, mustFail = carried(kept[k].sni)
 				trace = append(trace, "dot again on the open connection("+kept[k].sni+")")
 				_ = kept[k].conn.SetDeadline(time.Now().Add(3 * time.Second))
 				xerr = kept[k].conn.WriteMsg(req)
@@ -185,6 +288,15 @@ func TestVFC16History(t *testing.T) {
 				// a lost datagram under load decides nothing
 				vfC16.Class("history:exchange_failed")
 				trace = append(trace, fmt.Sprintf("  (failed: %v)", xerr))
+
+				continue
+			}
+			if mustFail {
+				vfC16.Eval()
+				vfC16.Class("history:open_connection_outside_the_new_domain_strict")
+				if resp.Rcode == dns.RcodeSuccess {
+					t.Fatalf("%s was served although strict checking is on and the name is outside %s\nhistory: %v", trace[len(trace)-1], curName, trace)
+				}
 
 				continue
 			}
